@@ -194,7 +194,7 @@ func (u *hUniverse) authOp(r *RNG, user []byte, a *hAuthenticator, id []byte, de
 func (u *hUniverse) randomOp(r *RNG) M {
 	user, a, id := pick(r, u.users), pick(r, u.auths), pick(r, u.ids)
 	var op M
-	switch r.Intn(10) {
+	switch r.Intn(14) {
 	case 0, 1, 2:
 		op = u.regOp(r, user, a, id, "")
 	case 3, 4, 5:
@@ -203,6 +203,14 @@ func (u *hUniverse) randomOp(r *RNG) M {
 		op = u.authOp(r, user, a, id, pick(r, authDeviations))
 	case 7:
 		op = u.regOp(r, user, a, id, pick(r, regDeviations[:16]))
+	case 10:
+		op = u.authOp(r, user, a, id, "userHandle.missing") // authenticate without a user handle
+	case 11:
+		op = u.authOp(r, user, a, id, "userHandle.foreign") // authenticate as another user
+	case 12:
+		op = u.authOp(r, user, a, id, "sig.otherKey") // authenticate with another key
+	case 13:
+		op = u.authOp(r, user, a, id, "userHandle.empty")
 	default:
 		if len(u.past) > 0 {
 			return pick(r, u.past) // replayed ceremony
@@ -232,10 +240,15 @@ func init() {
 			depth := c.N(3, 4)
 			u := newUniverse(c.R, 2, 2, 2)
 			var alphabet []M
+			ids := u.ids
+			if !c.Thorough() {
+				ids = ids[:1]
+			}
 			for _, user := range u.users {
 				for _, a := range u.auths {
-					for _, id := range u.ids {
-						alphabet = append(alphabet, u.regOp(c.R, user, a, id, ""), u.authOp(c.R, user, a, id, ""))
+					for _, id := range ids {
+						alphabet = append(alphabet, u.regOp(c.R, user, a, id, ""), u.authOp(c.R, user, a, id, ""),
+							u.authOp(c.R, user, a, id, "userHandle.missing"), u.authOp(c.R, user, a, id, "userHandle.foreign"))
 					}
 				}
 			}
@@ -255,9 +268,8 @@ func init() {
 				}
 			}
 			// histories of exactly `depth` steps contain all shorter ones as prefixes (each step is compared)
-			if !c.Thorough() {
-				// quick: depth 3 over a reduced alphabet (one user pair / id pair kept, 8 ops)
-				alphabet = alphabet[:8]
+			if c.Thorough() {
+				depth = 3 // 32-op alphabet: 32768 histories
 			}
 			rec(nil, depth)
 			c.Res.mu.Lock()
